@@ -11,6 +11,9 @@ from dippy.cli import Classification, HandlerContext
 
 COMMANDS = ["bash", "sh", "zsh", "dash", "ksh", "fish"]
 
+# "bash script.sh -h" runs the script: -h after other words is not a help query
+RUNS_SCRIPTS = True
+
 
 def classify(ctx: HandlerContext) -> Classification:
     """Classify shell command."""
